@@ -37,6 +37,13 @@ CHECKS["C18"] = ("fvh-blackbox", "model-based stateful property testing with a 1
          "generated multi-connection histories: SELECT (valid/invalid), commands of every family on a shared key pool through direct, MULTI/EXEC (with SELECT inside), EVAL, EVALSHA, script-issued whole-keyspace commands, blocked BLPOP/BRPOP with pushes in other databases, WATCH across databases, FLUSHDB/FLUSHALL, KEYS/SCAN/DBSIZE/RANDOMKEY; replies compared with the model for the selected database at that time and a 16-database canonical dump compared after refusals and at the end.",
          "script-wrapped commands are restricted to a subset whose script-path effect equals the direct effect; reply content of scripts is not judged here", "3/C18")
 
+CHECKS["C02"] = ("fvh-blackbox", "model-based real-time property testing (three-valued timed model) + harness-owned sweeper interleavings through a sync-point hook",
+         "A: generated real-time histories against the real server with its real once-per-second sweeper; each request is bracketed by monotonic clock readings, so for every command the model knows whether a key's deadline has definitely passed, definitely not, or lies inside the window (then nothing is asserted and the case ends). Reads through every command family, create-or-update writes, TTL clearing/moving/extending, TTL/PTTL values within the clock interval, and dumps after two sweeper periods (no spurious deletion). B: in-process, the cfg(ferrous_verif) gate parks the sweeper between its scan and its deletions while the harness re-creates / overwrites / renames onto / persists the collected keys; all (type x operation) pairs are enumerated in every run.",
+         "harness and server share CLOCK_MONOTONIC; a defect visible only inside the sub-millisecond ambiguity window is invisible; B trusts the gate placement (between collect and delete)", "3/C02")
+CHECKS["C05"] = ("fvh-blackbox", "generated pipelines with marker framing, segmentation differential, protocol-violation grammar",
+         "generated pipelines of valid, impossible (unknown / arity / wrong type / bad argument / missing key) and transactional items with hostile argument bytes, each item followed by ECHO of a unique marker, sent under generated segmentations (whole, byte by byte, cuts, per command, inside every header/CRLF); an independent RESP decoder must find exactly the expected frames with markers in place, errors for impossible commands, a usable connection afterwards, and byte-identical replies for the one-write send. 18 kinds of protocol-violating frames must draw an error reply.",
+         "kernel-level TCP coalescing is not controlled (only what is written when); pub/sub and blocking commands are outside this generator; silence verdicts need 1.5 s without bytes plus a responsive control connection", "3/C05")
+
 checks = []
 for i in ids:
     if i in CHECKS:
